@@ -30,6 +30,8 @@ class Oracle:
     signed = None
     token = None
     log = []
+    multi = False
+    pairs = []
 
     @staticmethod
     def reset():
@@ -45,11 +47,19 @@ _REAL_VERIFY = F.EdDSAPub.verify
 def _sign(self, sigdata, hash_alg):
     Oracle.log.append(bytes(sigdata))
     Oracle.signed = bytes(sigdata)
+    if Oracle.multi:
+        # history mode: every signature gets its own integers; verification looks the (octets, integers) pair up
+        n = len(Oracle.pairs) + 1
+        tok = bytes([0x40 + n // 256, n % 256]) + bytes(30) + bytes([0x41]) + bytes(31)
+        Oracle.pairs.append((bytes(sigdata), tok))
+        return tok
     tok = Oracle.token if Oracle.token is not None else b'\x11' * 64
     return tok
 
 
 def _verify(self, subj, sigbytes, hash_alg):
+    if Oracle.multi:
+        return (bytes(subj), bytes(sigbytes)) in Oracle.pairs
     if Oracle.signed is None:
         return False
     ok = bytes(subj) == Oracle.signed
